@@ -467,3 +467,86 @@ theorem plm_inv (g90e : Bool) (inch : α) (cfg : Config) (s : FState α) (phys :
     · rw [hfr]; exact a6
 
 end ERP
+
+namespace ERP
+open T Spec
+set_option linter.unusedSectionVars false
+set_option linter.unusedSimpArgs false
+variable {α : Type} [Field α] [LinearOrder α] [IsStrictOrderedRing α] [MathOps α] [MathSpec α]
+
+/-- **Z order of the re-positioning.**  The exit sequence is `pre ++ [G0 X Y] ++ post`; nothing in
+`pre` moves X or Y; when the printer reaches the X/Y travel its Z is the higher of the Z it had
+during the episode and the Z the file is at (a raise precedes the travel); `post` is at most the
+lowering Z move. -/
+theorem exit_zorder (g90e : Bool) (inch : α) (cfg : Config) (s : FState α) (phys : Printer α)
+    (h : WF s) (hinv : InvXYZ s phys) (he : s.excluding = true) :
+    ∃ pre f x y post, (T.exitExcludedRegion cfg s).2 = pre ++ [.g0xy f x y] ++ post ∧
+      (phys.execOuts g90e inch pre).pos.x = phys.pos.x ∧ (phys.execOuts g90e inch pre).pos.y = phys.pos.y ∧
+      cur (phys.execOuts g90e inch pre).pos.z = max (cur phys.pos.z) (cur s.position.z) ∧
+      (post = [] ∨ ∃ fz z, post = [.g0z fz z] ∧ cur s.position.z < cur phys.pos.z) := by
+  obtain ⟨lp, hlp, hlpok⟩ := h.lastPos he
+  obtain ⟨ix, iy, iz, ipend⟩ := hinv
+  simp only [expectAxis, he, if_true, T.lastPos, hlp, Option.getD] at ix iy iz
+  obtain ⟨px, py, pz, pe⟩ := h.pos
+  have hcz : cur phys.pos.z = cur lp.z := by rw [iz]; rfl
+  unfold T.exitExcludedRegion
+  simp only [he, Bool.not_true, Bool.false_eq_true, if_false, FState.processPendingCommands,
+    T.lastPos, hlp, Option.getD]
+  have hpre : ∀ o ∈ (s.pendingCommands.map (fun (x : String × Pending α) =>
+        match x.2 with
+        | .args a => Out.merged x.1 a
+        | .cmd c => Out.orig c)) ++
+      (match cfg.exitingExcludedRegionGcode with
+        | some l => l.map (Out.script true)
+        | none => []) ++ [Out.g92e (n2l s.position.e)], EOnly o := by
+    intro o ho
+    simp only [List.mem_append, List.mem_map, List.mem_singleton] at ho
+    rcases ho with (⟨e, he', rfl⟩ | ho) | rfl
+    · cases hp : e.2 with
+      | args a => trivial
+      | cmd c => exact ipend e he' c hp
+    · split at ho
+      · obtain ⟨t, _, rfl⟩ := List.mem_map.mp ho
+        trivial
+      · cases ho
+    · trivial
+  generalize (s.pendingCommands.map (fun (x : String × Pending α) =>
+        match x.2 with
+        | .args a => Out.merged x.1 a
+        | .cmd c => Out.orig c)) ++
+      (match cfg.exitingExcludedRegionGcode with
+        | some l => l.map (Out.script true)
+        | none => []) ++ [Out.g92e (n2l s.position.e)] = pre0 at hpre
+  obtain ⟨qx, qy, qz⟩ := execOuts_EOnly g90e inch pre0 phys hpre
+  have ez := exit_axis s.position.z lp.z pz
+  by_cases hup : cur lp.z < cur s.position.z
+  · -- raise first
+    have hdn : ¬ (cur s.position.z < cur lp.z) := not_lt.mpr hup.le
+    simp only [hup, hdn, if_true, if_false]
+    refine ⟨pre0 ++ [Out.g0z (s.feedRate / s.feedRateUnitMultiplier) (exitCoord s.position.z lp.z)],
+      s.feedRate / s.feedRateUnitMultiplier, exitCoord s.position.x lp.x, exitCoord s.position.y lp.y, [],
+      by simp, ?_, ?_, ?_, Or.inl rfl⟩
+    · rw [execOuts_append]; simp only [execOuts_cons, execOuts_nil, Printer.execOut, Printer.linear, moveAxis]
+      exact qx
+    · rw [execOuts_append]; simp only [execOuts_cons, execOuts_nil, Printer.execOut, Printer.linear, moveAxis]
+      exact qy
+    · rw [execOuts_append]
+      simp only [execOuts_cons, execOuts_nil, Printer.execOut, Printer.linear]
+      rw [qz, iz, ez]
+      have : cur ({ s.position.z with current := lp.z.current } : Axis α) = cur lp.z := rfl
+      rw [this, max_eq_right hup.le]
+  · by_cases hdn : cur s.position.z < cur lp.z
+    · -- travel high, lower afterwards
+      simp only [hup, hdn, if_true, if_false]
+      refine ⟨pre0, s.feedRate / s.feedRateUnitMultiplier, exitCoord s.position.x lp.x,
+        exitCoord s.position.y lp.y,
+        [Out.g0z (s.feedRate / s.feedRateUnitMultiplier) (exitCoord s.position.z lp.z)], by simp, qx, qy, ?_,
+        Or.inr ⟨_, _, rfl, by rw [hcz]; exact hdn⟩⟩
+      rw [qz, hcz, max_eq_left hdn.le]
+    · simp only [hup, hdn, if_false]
+      refine ⟨pre0, s.feedRate / s.feedRateUnitMultiplier, exitCoord s.position.x lp.x,
+        exitCoord s.position.y lp.y, [], by simp, qx, qy, ?_, Or.inl rfl⟩
+      have : cur lp.z = cur s.position.z := le_antisymm (not_lt.mp hdn) (not_lt.mp hup)
+      rw [qz, hcz, this, max_self]
+
+end ERP
